@@ -188,6 +188,15 @@ class MessagePackDocument(HierDictDocument):
         if isinstance(value, (six.text_type, six.binary_type)):
             return super(MessagePackDocument, self) \
                                                 .integer_from_bytes(cls, value)
+        if isinstance(value, float):
+            # a whole number may arrive as a float; anything else is not an
+            # integer (int() refuses NaN and the infinities).
+            try:
+                if int(value) != value:
+                    raise ValidationError(value)
+            except (ValueError, OverflowError):
+                raise ValidationError(value)
+            return int(value)
         return value
 
     def integer_to_bytes(self, cls, value, **_):
